@@ -105,7 +105,7 @@ func malformedChild(args []string) {
 			}
 		}
 		if hung {
-			ln = mfLine{K: j.K, C: j.C, Format: j.Fmt, Mode: j.Mode, Seed: j.Seed, EC: j.EC, Obs: mfHangObs(j), Evs: []mfEvent{{"Hang", fmt.Sprintf("no return within %v, twice", mfHangWait)}}, Res: "hang"}
+			ln = mfLine{K: j.K, C: j.C, Format: j.Fmt, Mode: j.Mode, Seed: j.Seed, EC: j.EC, LC: j.LC, Obs: mfHangObs(j), Evs: []mfEvent{{"Hang", fmt.Sprintf("no return within %v, twice", mfHangWait)}}, Res: "hang"}
 			emit(ln)
 			f.Close()
 			os.Exit(4)
@@ -116,7 +116,7 @@ func malformedChild(args []string) {
 }
 
 func mfHangObs(j mfJob) *mfEditObs {
-	if j.K != "edit" {
+	if j.K != "edit" && j.K != "ledit" {
 		return nil
 	}
 	return &mfEditObs{Res: "hang", InvalidAt: []int{}}
@@ -141,6 +141,8 @@ func mfRunJob(j mfJob) mfLine {
 		return mfRunFuzz(j)
 	case "edit":
 		return mfRunEdit(*j.EC)
+	case "ledit":
+		return mfRunLineEdit(*j.LC)
 	}
 	machinery("unknown job kind %q", j.K)
 	return mfLine{}
@@ -340,8 +342,23 @@ func mfGRPCProviderPL(mode string, data []byte, passes, limit int) func() (core.
 		if err := afero.WriteFile(fs, "/ammo", data, 0o644); err != nil {
 			machinery("%v", err)
 		}
-		return grpcjson.NewProvider(fs, grpcjson.Config{File: "/ammo", Passes: passes, Limit: limit, ContinueOnError: mode == "continue"}), nil
+		return grpcjson.NewProvider(fs, grpcjson.Config{File: "/ammo", Passes: passes, Limit: limit, ContinueOnError: mode == "continue", MaxAmmoSize: mfGRPCBuf}), nil
 	}
+}
+
+// max_ammo_size of the grpc/json provider for the case being run (jobs run one at a time in a child)
+var mfGRPCBuf int
+
+func mfBufOption(c mfCase) int {
+	if c.Cls != "bufline" {
+		return 0
+	}
+	b, _ := c.Arg[1].(string)
+	v, ok := map[string]int{"default": 0, "tiny": 50, "large": 100000, "neg": -5}[b]
+	if !ok {
+		machinery("unknown buffer option %q", b)
+	}
+	return v
 }
 
 // file passes requested from the provider (Malformed!NPasses)
@@ -372,11 +389,16 @@ func mfHeadlineOf(d mfDelivery) string {
 }
 
 func mfRunAmmoCase(c mfCase) mfLine {
+	if c.Cls == "degen" {
+		return mfRunDegenCase(c)
+	}
 	data, entries := mfRenderCase(c)
 	passes := mfPasses(c)
 	var r mfRunResult
 	if c.Format == "grpcjson" {
+		mfGRPCBuf = mfBufOption(c)
 		r = mfRunProvider(mfGRPCProviderPL(c.Mode, data, passes, mfLimit(c)), mfProjectGRPC, 0)
+		mfGRPCBuf = 0
 	} else {
 		r = mfRunProvider(mfHTTPProviderHPL(c.Format, c.Mode, data, mfConfigHeaders(c.Cls), passes, mfLimit(c)), mfProjectHTTP, 0)
 	}
